@@ -173,14 +173,15 @@ theorem foldl_set_fresh (kvs : List (Bytes × List Nat)) (d : Dict)
 
 /-! ### one `/proc/net/dev` line -/
 
-/-- what a name must satisfy for `line[:colon].strip()` to give it back: non-empty, its first
-    and last bytes are not whitespace for `str.strip()`, and it does not break the line -/
+/-- what a name must satisfy for `line[:colon].strip(<chars>)` to give it back: non-empty, its first
+    and last bytes are not among the stripped characters, and it does not break the line (`\n`; a
+    `\r` inside a name is harmless since `open_text` reads with `newline="\n"` — obligation
+    `cfg_no_universal_newlines`) -/
 structure WFName (p : Nat → Bool) (n : Bytes) : Prop where
   ne : n ≠ []
   head : ∀ c, n.head? = some c → p c = false
   last : ∀ c, n.getLast? = some c → p c = false
   noLF : 10 ∉ n
-  noCR : 13 ∉ n
 
 theorem padLeft_length_pos (w : Nat) (s : Bytes) (h : s ≠ []) : ∃ k, (padLeft w s).length = k + 1 := by
   cases s with
@@ -269,6 +270,12 @@ theorem textLines_unlines (univ : Bool) (ls : List Bytes) (h10 : ∀ l ∈ ls, 1
     simp only [Bool.false_eq_true, if_false]
     exact linesOf_unlines ls h10
 
+/-- lines of a file read with `newline="\n"`: only `\n` ends a line -/
+theorem textLines_unlines_nl (ls : List Bytes) (h10 : ∀ l ∈ ls, 10 ∉ l) : textLines false (unlines ls) = ls := by
+  unfold textLines
+  simp only [Bool.false_eq_true, if_false]
+  exact linesOf_unlines ls h10
+
 theorem netFold_map {α : Type} (cfg : NetCfg) (xs : List α) (render : α → Bytes)
     (g : α → Bytes × List Nat) (h : ∀ x ∈ xs, netLine cfg (render x) = .ok (g x)) (d : Dict) :
     netFold cfg d (xs.map render) = .ok ((xs.map g).foldl (fun d kv => d.set kv.1 kv.2) d) := by
@@ -280,19 +287,17 @@ theorem netFold_map {α : Type} (cfg : NetCfg) (xs : List α) (render : α → B
 
 structure NetWF (p : Nat → Bool) (h1 h2 : Bytes) (ifs : List Iface) : Prop where
   h1LF : 10 ∉ h1
-  h1CR : 13 ∉ h1
   h2LF : 10 ∉ h2
-  h2CR : 13 ∉ h2
   names : ∀ i ∈ ifs, WFName p i.name
   nodup : (ifs.map (·.name)).Nodup
 
 theorem netPlatform_render (cfg : NetCfg) (hr : cfg.rfind = true) (hu : cfg.unpack.length = 16)
-    (hs : cfg.skip = 2) (hsp : cfg.nameWs 32 = true) (t : Iface → List Nat)
+    (hs : cfg.skip = 2) (hsp : cfg.nameWs 32 = true) (hnl : cfg.univNl = false) (t : Iface → List Nat)
     (ht : ∀ i, lookups (cfg.unpack.zip (i.cells.map (·.2))) cfg.output = some (t i))
     (h1 h2 : Bytes) (ifs : List Iface) (wf : NetWF cfg.nameWs h1 h2 ifs) :
     netPlatform cfg (renderNetDev h1 h2 ifs) = .ok (ifs.map fun i => (i.name, t i)) := by
   unfold netPlatform renderNetDev
-  rw [textLines_unlines]
+  rw [hnl, textLines_unlines_nl]
   · simp only [hs, List.drop_succ_cons, List.drop_zero]
     rw [netFold_map cfg ifs renderNetLine (fun i => (i.name, t i))]
     · rw [foldl_set_fresh]
@@ -307,12 +312,6 @@ theorem netPlatform_render (cfg : NetCfg) (hr : cfg.rfind = true) (hu : cfg.unpa
     · exact wf.h1LF
     · exact wf.h2LF
     · exact not_mem_renderNetLine 10 odd10 (by decide) i (wf.names i hi).noLF
-  · intro l hl
-    simp only [List.mem_cons, List.mem_map] at hl
-    rcases hl with rfl | rfl | ⟨i, hi, rfl⟩
-    · exact wf.h1CR
-    · exact wf.h2CR
-    · exact not_mem_renderNetLine 13 odd13 (by decide) i (wf.names i hi).noCR
 
 /-! ### front end -/
 
